@@ -1,7 +1,7 @@
 from __future__ import annotations
 
 from collections import defaultdict
-from collections.abc import Mapping, Sequence
+from collections.abc import Iterable, Mapping, Sequence
 from dataclasses import dataclass, field, replace
 from typing import (
     TYPE_CHECKING,
@@ -10,6 +10,8 @@ from typing import (
     Union,
     cast,
 )
+
+import numpy
 
 from formulaic.materializers.base import EncodedTermStructure
 from formulaic.parser.types import Factor, Term
@@ -20,9 +22,10 @@ from formulaic.utils.variables import Variable
 from .formula import Formula, FormulaSpec, SimpleFormula, StructuredFormula
 from .materializers import ClusterBy, FormulaMaterializer, NAAction
 
+from .transforms.contrasts import ContrastsState
+
 if TYPE_CHECKING:  # pragma: no cover
     from .model_matrix import ModelMatrices, ModelMatrix
-    from .transforms.contrasts import ContrastsState
 
 from functools import cached_property
 
@@ -647,6 +650,44 @@ class ModelSpec:
         return formula
 
 
+def _have_conflicting_state(specs: Iterable[ModelSpec]) -> bool:
+    """
+    Whether any two of the nominated specs have recorded different state for
+    the same factor or transform expression.
+    """
+
+    def agree(a: Any, b: Any) -> bool:
+        if a is b:
+            return True
+        if isinstance(a, dict) and isinstance(b, dict):
+            return a.keys() == b.keys() and all(agree(a[k], b[k]) for k in a)
+        if isinstance(a, (list, tuple)) and isinstance(b, (list, tuple)):
+            return len(a) == len(b) and all(agree(x, y) for x, y in zip(a, b))
+        if isinstance(a, ContrastsState) and isinstance(b, ContrastsState):
+            return type(a.contrasts) is type(b.contrasts) and agree(
+                (vars(a.contrasts), list(a.levels)), (vars(b.contrasts), list(b.levels))
+            )
+        try:
+            if isinstance(a, numpy.ndarray) or isinstance(b, numpy.ndarray):
+                return bool(numpy.array_equal(a, b, equal_nan=True))
+            return bool(a == b) or bool(a != a and b != b)
+        except Exception:  # values that cannot be compared
+            return False
+
+    transform_state: dict[str, Any] = {}
+    encoder_state: dict[str, Any] = {}
+    for spec in specs:
+        for pooled, state in (
+            (transform_state, spec.transform_state),
+            (encoder_state, spec.encoder_state),
+        ):
+            for key, value in state.items():
+                if key in pooled and not agree(pooled[key], value):
+                    return True
+                pooled[key] = value
+    return False
+
+
 class ModelSpecs(Structured[ModelSpec]):
     """
     A `Structured[ModelSpec]` subclass that exposes some convenience methods
@@ -728,6 +769,13 @@ class ModelSpecs(Structured[ModelSpec]):
             )
         else:
             jointly_generate = True
+
+        # Joint generation evaluates each factor once and pools the recorded
+        # state of all specs by factor expression. That is only sound when the
+        # specs agree on the state they share (as the specs of one fit do);
+        # specs fitted separately must each replay their own state.
+        if jointly_generate and _have_conflicting_state(self._flatten()):
+            jointly_generate = False
 
         if jointly_generate:
             if materializer is None:
